@@ -635,6 +635,24 @@ func (s *sim) checkAccessors(box *stateBox, where string) {
 	bad := func(name string, got, want interface{}) {
 		s.viol("C15", "getter/"+name, fmt.Sprintf("%s (%s): getter returns %v, the encoded state holds %v", where, forkName(st), got, want))
 	}
+	// Raw(): the library's own flattening of the state is the encoded state
+	if rm := reflect.ValueOf(st).MethodByName("Raw"); rm.IsValid() && rm.Type().NumIn() == 1 {
+		var outs []reflect.Value
+		if p := guard(func() { outs = rm.Call([]reflect.Value{reflect.ValueOf(s.w.spec)}) }); p != nil {
+			s.viol("C15", "getter-panic/Raw/"+p.frame, p.val)
+			return
+		}
+		if len(outs) == 2 && outs[1].IsNil() && !outs[0].IsNil() {
+			s.res.Stat("setter_checks", 1)
+			if ch := changedFields(raw, outs[0].Interface()); len(ch) != 0 {
+				s.viol("C15", "getter/Raw", fmt.Sprintf("%s (%s): Raw() differs from the encoded state in %v", where, forkName(st), ch))
+				return
+			}
+		} else if len(outs) == 2 && !outs[1].IsNil() {
+			s.viol("C15", "getter/Raw", fmt.Sprintf("%s (%s): Raw() fails: %v", where, forkName(st), outs[1].Interface()))
+			return
+		}
+	}
 	if v, _ := st.GenesisTime(); !reflect.DeepEqual(v, fieldOf(raw, "GenesisTime")) {
 		bad("GenesisTime", v, fieldOf(raw, "GenesisTime"))
 		return
@@ -1038,6 +1056,12 @@ func (s *sim) checkAccessors(box *stateBox, where string) {
 				s.viol("C15", "setter/IncrementNextWithdrawalIndex", fmt.Sprintf("%s (%s): changed %v", where, forkName(st), ch))
 				return
 			}
+			cw.SetNextWithdrawalIndex(cur + 77)
+			if r2b := s.rawOf(cp); fieldOf(r2b, "NextWithdrawalIndex").(common.WithdrawalIndex) != cur+77 || len(changedFields(r2, r2b)) != 1 {
+				s.viol("C15", "setter/SetNextWithdrawalIndex", fmt.Sprintf("%s (%s): SetNextWithdrawalIndex(%d): the state holds %v, changed %v", where, forkName(st), cur+77, fieldOf(r2b, "NextWithdrawalIndex"), changedFields(r2, r2b)))
+				return
+			}
+			cw.SetNextWithdrawalIndex(cur + 1)
 			cw.SetNextWithdrawalValidatorIndex(common.ValidatorIndex(pick) + 1000)
 			r3 := s.rawOf(cp)
 			if ch := changedFields(r2, r3); len(ch) != 1 || ch[0] != "NextWithdrawalValidatorIndex" {
@@ -1386,6 +1410,36 @@ func (s *sim) checkAccessors(box *stateBox, where string) {
 				}
 				return v.MakeSlashed()
 			}, want2})
+		}
+	}
+	// SeedRandao: every mix is the seed; SetBalances: the list is exactly the one given
+	{
+		seed := fnvRoot("seed-randao", uint64(slot))
+		wantMixes := make(phase0.RandaoMixes, len(rawMixes))
+		for i := range wantMixes {
+			wantMixes[i] = seed
+		}
+		vs = append(vs, vsetter{"RandaoMixes", func(c common.BeaconState) error {
+			m := reflect.ValueOf(c).MethodByName("SeedRandao")
+			if !m.IsValid() {
+				return fmt.Errorf("no SeedRandao")
+			}
+			if out := m.Call([]reflect.Value{reflect.ValueOf(s.w.spec), reflect.ValueOf(seed)}); !out[0].IsNil() {
+				return out[0].Interface().(error)
+			}
+			return nil
+		}, wantMixes})
+		if m := reflect.ValueOf(st).MethodByName("SetBalances"); m.IsValid() && len(rawBals) > 0 {
+			nb := make([]common.Gwei, len(rawBals))
+			for i := range nb {
+				nb[i] = rawBals[i] + common.Gwei(i+1)
+			}
+			vs = append(vs, vsetter{"Balances", func(c common.BeaconState) error {
+				if out := reflect.ValueOf(c).MethodByName("SetBalances").Call([]reflect.Value{reflect.ValueOf(nb)}); !out[0].IsNil() {
+					return out[0].Interface().(error)
+				}
+				return nil
+			}, phase0.Balances(nb)})
 		}
 	}
 	// AddValidator: one more validator with exactly the given data, one more balance and (altair+) one
